@@ -169,6 +169,11 @@ SPEC = [
          selfr={"param_grid": ("param_grid", L(("dict", L("A"))))}),
     dict(name="grid_len", src=("hypertuner.py", "ParameterGrid.__len__"), params={}, ret="int", poly=True, grid=True,
          selfr={"param_grid": ("param_grid", L(("dict", L("A"))))}),
+    dict(name="multitask_init", src=("multitask.py", "Multitask.__init__"), params={"algorithms": L("mobj"), "tasks": L("mobj"), "modes": O(L("str")), "n_workers": O("int")},
+         ret="unit", multitask=True, rho_type=True, kwargs_empty=True,
+         selfw={"_algorithms": ("self_algorithms", L("mobj")), "_tasks": ("self_tasks", L("mobj")), "_n_algorithms": ("n_algorithms", "int"), "_m_tasks": ("m_tasks", "int"),
+                "_modes": ("self_modes", O(L(L("str")))), "_n_workers": ("self_n_workers", O("int")), "_debug": ("self_debug", O("bool")),
+                "_df2": ("self_df2", L(("dict", L("mcell"))))}),
     dict(name="multitask_debug_results", src=("multitask.py", "Multitask.__debug_results__"), params={"result": "mcell", "optimizer_name": "str"}, ret="unit",
          selfr={"_debug": ("self_debug", "bool")}, multitask=True, rho=True),
     dict(name="multitask_run", src=("multitask.py", "Multitask.__run__"), params={"id_trial": "int", "optimizer": "mobj", "task": "mobj", "mode": "mmode"}, ret="mcell",
@@ -1372,7 +1377,7 @@ class Fn:
                 continue
             if isinstance(s, ast.FunctionDef) and s.name in self.spec.get("nested", {}):
                 continue               # emitted as a separate definition
-            if isinstance(s, ast.AnnAssign) and isinstance(s.target, ast.Name) and s.value is not None:
+            if isinstance(s, ast.AnnAssign) and isinstance(s.target, (ast.Name, ast.Attribute)) and s.value is not None:
                 self.assign(s.target, s.value, env, pad)
                 continue
             if isinstance(s, ast.Break):
@@ -1630,6 +1635,12 @@ class Fn:
                     self.err(v, f"np.random.seed of a {ty}")
                 self.lines.append(f"{pad}self := {{ self with priv := H.np_random_seed {atom(t)} self.priv }}")
                 return
+        if self.spec.get("kwargs_empty") and ast.unparse(v) == "self.__set_keyword_arguments__(kwargs)":
+            # the constructor is modelled for calls without extra keyword arguments: the callee must be the plain `setattr` loop over them (nothing to do)
+            callee = self.spec.get("_class_methods", {}).get("__set_keyword_arguments__")
+            if callee is None or [ast.unparse(x) for x in callee.body] != ["for key, value in kwargs.items():\n    setattr(self, key, value)"]:
+                self.err(v, "__set_keyword_arguments__ is not the plain setattr loop over the extra keyword arguments")
+            return
         if self.spec.get("init_children") and ast.unparse(v) == "super().__init__(**kwargs)":
             return       # pydantic stores the declared fields: they are this function's parameters
         if "kwargs" in self.spec and ast.unparse(v) == "super().__init__(**kwargs)":
@@ -1894,6 +1905,8 @@ class Fn:
         header = []
         if sp.get("poly"):
             header.append("{α : Type}")
+        if sp.get("rho_type"):
+            header.append("{ρ : Type}")
         if sp.get("rho"):
             # the result of `optimizer.optimize(task, mode=…, workers=…)` made in the worker process of a given trial: an opaque function of the two objects,
             # the mode string, the workers argument and the trial whose process makes the call
@@ -2199,6 +2212,8 @@ def generate(repo: Path) -> tuple[str, dict]:
             key = qual.split(".")[0] + "::" + key
         if qual.endswith(".__init__"):
             key = qual.split(".")[0]
+        if sp.get("kwargs_empty") and "." in qual:
+            sp["_class_methods"] = {m.name: m for c in trees[fname].body if isinstance(c, ast.ClassDef) and c.name == qual.split(".")[0] for m in c.body if isinstance(m, ast.FunctionDef)}
         table[key] = (sp, node)
     # ---- soundness guards: the translation reads function bodies; anything that changes what a *name* or an *attribute* means
     # without changing the body must be refused, not ignored
